@@ -47,7 +47,7 @@ def check(run):
     try:
         nprog = 48 if quick else 300
         # every way a consumer can be linked to a producer as the only link (deterministic), then generated programs
-        progs = list(genprog.single_link_programs())
+        progs = list(genprog.single_link_programs()) + list(genprog.late_fill_programs())
         nfixed = len(progs)
         for pi in range(nprog + nfixed):
             prog = progs[pi] if pi < nfixed else genprog.generate(rng, rng.choice([6, 9, 12]), want=genprog.RARE[pi % len(genprog.RARE)])
@@ -129,7 +129,7 @@ def check(run):
                     from jugverif import sched
                     s = be.store()
                     tasks, space = sched.load_jugfile(P['path'], s)
-                    index, order = sched.index_tasks(tasks)
+                    index, order = sched.index_tasks(tasks, {h: i for i, h in enumerate(P['hashes'])})
                     for t in tasks:
                         t.store = s
                     ran = []
@@ -146,6 +146,33 @@ def check(run):
                         run.fail('reexecute-values', 'after invalidate + execute tasks %s have wrong values' % wrong, rp)
                     if len(run.samples) < 2 and nontriv:
                         run.sample({'program': prog.text.split('\n')[2:], 'target': target, 'variant': variant, 'backend': kind, 'removed': sorted(removed), 'kept': sorted(present - removed)})
+            # one shell session, several invalidations with recomputation in between (the reverse-edge table is built once per session)
+            if pi % 3 == 0 or pi < nfixed:
+                names = sorted({nm.split('.')[-1] for nm in P['names']})
+                tg1, tg2 = rng.choice(names), rng.choice(names)
+                r1 = [i for i in range(n) if matching(P, tg1)[i]]
+                r2 = [i for i in range(n) if matching(P, tg2)[i]]
+                be = G.GBackend(['dict', 'file', 'redis'][pi % 3], d, 'sess')
+                G.put_state(P, be, set(range(n)), {})
+                rp = {'kind': 'shell-session', 'program': prog.text, 'targets': [tg1, tg2]}
+                try:
+                    G.real_shell_session(P, be, [r1, r2])
+                except Exception as e:
+                    run.fail('invalidate-raises', 'shell session invalidate(%s); recompute; invalidate(%s) raised %s: %s' % (tg1, tg2, type(e).__name__, e), rp)
+                else:
+                    res, _ = G.observe(P, be)
+                    low = G.closure(P, r2, 'reads')
+                    up = G.closure(P, r2, 'reported') | low
+                    stale = sorted(i for i in low if res[i])
+                    extra = sorted(i for i in range(n) if not res[i] and i not in up)
+                    run.case((pi, 'session', tg1, tg2, run.seed), nontrivial=bool(low - set(r2)))
+                    run.count('shell_sessions')
+                    if stale:
+                        run.fail('stale-result', 'one shell session: invalidate(%s), recompute, invalidate(%s): tasks %s (%s) still have a stored result although they depend on the second target'
+                                 % (tg1, tg2, stale, [P['names'][i] for i in stale[:3]]), rp)
+                    if extra:
+                        run.fail('unrelated-removed', 'one shell session: invalidate(%s), recompute, invalidate(%s): tasks %s (%s) have no result although they do not depend on the second target'
+                                 % (tg1, tg2, extra, [P['names'][i] for i in extra[:3]]), rp)
             core.rm_rf(d)
         # a key that exists packed and loose (stale worker): invalidate must remove both copies
         from jugverif import storecheck
